@@ -710,7 +710,8 @@ def drv_stationary(tier, shard, nshards):
                 bound='drift(pts) = max rel. change of from_phi(n=10) between phi_1D(nu,theta0,gamma,h,beta) and the same density '
                       'integrated by one_pop for T=2 under the same (nu,gamma,h,theta0,beta), pts in (40,80,160), default timescale_factor; '
                       'nu in {0.1,0.5,1,2,10}, gamma in {0,-3,5,-20,40}, h in {0.5,0.2,1.0}, beta in {1,3}, theta0 in {1,2.5}: '
-                      'drift(160) <= max(drift(40)/2.25, 1e-7) (vanishes under refinement at >= 1.5x per doubling)')
+                      'drift(160) <= max(drift(40)/2.25, 1e-7) (vanishes under refinement at >= 1.5x per doubling); the beta = 3 cases are run a second time with nu '
+                      'passed as a function of time (time-dependent driver / compiled kernel)')
     np.seterr(all='ignore')
     warnings.simplefilter('ignore')
     n = 10
@@ -726,7 +727,9 @@ def drv_stationary(tier, shard, nshards):
     if tier == 'quick':
         cases = [c for i, c in enumerate(cases) if c[3] == 1.0 and (c[2] == 0.5 or i % 3 == 0) and abs(c[1]) <= 20] + \
                 [(1.0, -3.0, 0.5, 3.0, 2.5), (1.0, 5.0, 0.2, 3.0, 2.5), (2.0, 0.0, 0.5, 3.0, 2.5)]
-    for ci, (nu, g, h, beta, theta0) in enumerate(cases):
+    # the time-dependent driver (compiled kernel) is a different code path from the constant-parameter one: run the beta != 1 cases through both
+    cases = [c + (False,) for c in cases] + [c + (True,) for c in cases if c[3] != 1.0]
+    for ci, (nu, g, h, beta, theta0, via_func) in enumerate(cases):
         if ci % nshards != shard:
             continue
         drift = []
@@ -734,13 +737,16 @@ def drv_stationary(tier, shard, nshards):
             xx = Numerics.default_grid(pts)
             phi = PhiManip.phi_1D(xx, nu=nu, theta0=theta0, gamma=g, h=h, beta=beta)
             f0 = _poly(Spectrum.from_phi(phi, (n,), (xx,)))
-            phi2 = Integration.one_pop(phi, xx, 2.0, nu=nu, gamma=g, h=h, theta0=theta0, beta=beta)
+            nu_arg = (lambda t, _nu=nu: _nu) if via_func else nu
+            phi2 = Integration.one_pop(phi, xx, 2.0, nu=nu_arg, gamma=g, h=h, theta0=theta0, beta=beta)
             f1 = _poly(Spectrum.from_phi(phi2, (n,), (xx,)))
             drift.append(_relerr(f1, f0))
         ok = drift[2] <= max(drift[0] / 2.25, 1e-7)
         fk = 'phi1D-nu-selection-stationarity' if (nu != 1.0 and g != 0.0) else 'stationarity'
-        d.case((nu, g, h, beta, theta0), ok, dict(nu=nu, gamma=g, h=h, beta=beta, theta0=theta0, T=2.0, n=n, drift_40_80_160=drift),
-               fail_key=fk)
+        if via_func:
+            fk += '-time-dependent-driver'
+        d.case((nu, g, h, beta, theta0) + (('func',) if via_func else ()), ok,
+               dict(nu=nu, gamma=g, h=h, beta=beta, theta0=theta0, T=2.0, n=n, drift_40_80_160=drift, nu_passed_as_function=via_func), fail_key=fk)
     return d.results()
 
 
